@@ -277,6 +277,7 @@ def obs_plot(h, ex=None, order=None, labels=None, compact=True):
     W = WORLD
     W.taps["descriptions"].clear()
     W.taps["pivots"].clear()
+    W.taps["components"].clear()
     ops_before = None
     try:
         fig, ax = W.lib.plot_circuit(h.obj, channel_order=order, channel_map=labels, compact_visualization=compact)
@@ -304,11 +305,13 @@ def obs_plot(h, ex=None, order=None, labels=None, compact=True):
             else:
                 piv.append(["?", -1, qid, x, y])
         out["piv"] = piv
+        out["blocks"] = [[oi.get(id(o), -1), kind_of(o), x, y, wd, ht] for (o, x, y, wd, ht) in W.taps["components"]]
         out["n_ops"] = len(d.operations)
         out["op_kinds"] = [kind_of(o) for o in d.operations]
         out["spacing"] = d.channel_spacing
     W.taps["descriptions"].clear()
     W.taps["pivots"].clear()
+    W.taps["components"].clear()
     return out
 
 
